@@ -10,14 +10,14 @@ type Hash [32]byte
 
 // Node is one header known to the reference block tree.
 type Node struct {
-	Hash    Hash
-	Parent  *Node
-	Height  int
-	Bits    uint32
-	Work    *big.Int // cumulative
-	Label   string
-	Marked  bool // explicitly marked invalid
-	Seq     int  // order of acceptance
+	Hash   Hash
+	Parent *Node
+	Height int
+	Bits   uint32
+	Work   *big.Int // cumulative
+	Label  string
+	Marked bool // explicitly marked invalid
+	Seq    int  // order of acceptance
 	// Base is set on nodes of a shared straight base chain: Base[h] is the node at height h.
 	Base []*Node
 }
@@ -29,7 +29,10 @@ type Tree struct {
 	// built on that base refers to; SharedTip is its tip.
 	Shared    map[Hash]*Node
 	SharedTip *Node
-	seq       int
+	// Removed holds the nodes deleted by Remove (headers that were accepted once and then taken
+	// out by marking): they are no longer part of the accepted tree, but they were accepted.
+	Removed map[Hash]*Node
+	seq     int
 }
 
 func NewTree() *Tree {
@@ -67,6 +70,10 @@ func (t *Tree) Remove(h Hash) {
 	for k, n := range t.Nodes {
 		if n.HasAncestorOrSelf(h) {
 			delete(t.Nodes, k)
+			if t.Removed == nil {
+				t.Removed = map[Hash]*Node{}
+			}
+			t.Removed[k] = n
 		}
 	}
 }
